@@ -56,6 +56,9 @@ var reviewedDropped = map[string]string{
 }
 
 func runC08(p *Prog, r *Report) {
+	if want("C08.21") {
+		ruleOptGetters(p, r, "C08.21", "strictness decides whether damage is reported", "Options.GetStrict", "ReadOptions.GetStrict")
+	}
 	if want("C08.20") {
 		// (shared with C04)
 		ruleTornEditIsCorruption(p, r, "C08.20")
